@@ -1,23 +1,47 @@
 // C10: in-process handlers get metadata, peer, deadline and cancellation, but
 // none of the caller's context values.
 //
-// Bounded-exhaustive: every subset of nine caller-context layers {string key,
-// struct key, outgoing metadata (NewOutgoingContext), incoming metadata, peer,
-// enclosing grpc.ServerTransportStream, appended outgoing pairs, context-typed
-// value, peer with auth info} in two stacking orders x base context
-// {background, inside an in-process unary handler, inside an in-process stream
-// handler} x {deadline, none} x {unary, stream} x {with, without channel-level
-// server interceptors}. The oracle runs inside the real handler (and inside the
-// interceptor) of a real inprocgrpc.Channel call. In the thorough tier the same
-// oracle (minus the in-process-only clauses) is first validated against real
-// grpc-go over bufconn: a disagreement there is an error of the checker.
+// Bounded-exhaustive. The "context" grammar: every subset of nine
+// caller-context layers {string key, struct key, outgoing metadata
+// (NewOutgoingContext), incoming metadata, peer, enclosing
+// grpc.ServerTransportStream, appended outgoing pairs, context-typed value,
+// peer with auth info} in two stacking orders x base context {background,
+// inside an in-process unary handler, inside an in-process stream handler} x
+// {unary, stream} x {with, without channel-level server interceptors} x
+// {no per-RPC credentials, grpc.PerRPCCredentials call option} x how the
+// call's context ends {the caller cancels, the handler returns normally and
+// keeps the context, the caller's (short, real) deadline passes} (the first two
+// with and without a far deadline).
+//
+// The whole context oracle (no caller values, incoming metadata, peer,
+// transport stream, deadline, ClientContext) is evaluated inside the real
+// handler and the real interceptor of a real inprocgrpc.Channel call at every
+// instant of the call's life: at entry, while parked after the caller has
+// mutated its metadata map, after the context became done (cancel / deadline),
+// after the caller's Invoke / RecvMsg has returned (gate), and in the
+// interceptor after the handler returned. At the late instants the accessors
+// are looked up repeatedly with a scheduler yield in between, so that state
+// that is dropped asynchronously shows without any wall-clock oracle.
+//
+// The "metadata" sweep: every triple of key subsets of a three-key alphabet
+// given to NewOutgoingContext, AppendToOutgoingContext and returned by the
+// per-RPC credentials (plus "no credentials option"), in lower-case and in
+// mixed-case spelling, both stacking orders, around each (base, kind,
+// interceptors, other layers none/all) base case.
+//
+// In the thorough tier the same oracle (minus the in-process-only clauses) is
+// first validated against real grpc-go over bufconn: a disagreement there is an
+// error of the checker.
 package main
 
 import (
 	"context"
 	"fmt"
+	"os"
 	"reflect"
+	"runtime"
 	"sort"
+	"strconv"
 	"strings"
 	"sync"
 	"time"
@@ -36,6 +60,29 @@ import (
 
 const guard = 30 * time.Second // hang guard only; nothing is decided by elapsed time
 
+// A deadline that is meant to pass during the call. Nothing is measured against
+// it: the handler simply waits for ctx.Done(). If the machine is so slow that it
+// passes before the handler is entered the case still runs through (the early
+// instants are then observed on a context that is legitimately done, which the
+// oracle tells from the state of the caller's own context).
+var (
+	shortDeadline    = 8 * time.Millisecond
+	shortDeadlineRef = 80 * time.Millisecond // over bufconn the call must reach the server first
+)
+
+// VERIF_C10_SHORT_DEADLINE_US overrides the short deadline: a knob to try the
+// check itself with deadlines that pass before the handler is even entered (the
+// verdicts must not change).
+func init() {
+	if us, err := strconv.Atoi(os.Getenv("VERIF_C10_SHORT_DEADLINE_US")); err == nil && us > 0 {
+		shortDeadline = time.Duration(us) * time.Microsecond
+	}
+}
+
+// look-ups (each followed by a scheduler yield) at every instant after the
+// context is done
+const lookups = 24
+
 // outgoing-md is metadata.NewOutgoingContext alone (the caller keeps the map);
 // outgoing-appended adds AppendToOutgoingContext pairs (grpc merges those into a
 // fresh map, a different path); context-value is a caller value whose dynamic
@@ -44,13 +91,40 @@ const guard = 30 * time.Second // hang guard only; nothing is decided by elapsed
 // handler served over TLS would).
 var layerNames = []string{"string-key", "struct-key", "outgoing-md", "incoming-md", "peer", "transport-stream", "outgoing-appended", "context-value", "peer-auth"}
 
+const (
+	bitOutgoingMD  = 1 << 2
+	bitOutgoingApp = 1 << 6
+)
+
 type kase struct {
 	Base     string `json:"base"`   // background | in-unary-handler | in-stream-handler
 	Layers   int    `json:"layers"` // bit i set = layerNames[i] present in the caller's context
-	Order    string `json:"order"`  // up: layers applied 0..5 (deadline below them, cancel on top); down: 5..0 (cancel below, deadline on top)
+	Order    string `json:"order"`  // up: layers applied 0..8 (deadline below them, cancel on top); down: 8..0 (cancel below, deadline on top)
 	Deadline bool   `json:"deadline"`
 	Kind     string `json:"kind"` // unary | stream
 	IC       bool   `json:"interceptors"`
+	// how the call's context comes to its end: "" or "cancel" (the caller cancels
+	// while the handler runs), "return" (the handler returns a response and a
+	// goroutine it started keeps the context), "deadline" (the caller's deadline,
+	// a short real one, passes while the handler runs; implies Deadline)
+	End string `json:"end,omitempty"`
+	// grpc.PerRPCCredentials call option: "" none, "std" (keys shared-key and
+	// Creds-Only), "empty" (credentials that return no metadata), or a
+	// "+"-joined subset of the metadata alphabet
+	Creds string `json:"creds,omitempty"`
+	// metadata sweep (Part "md"): "+"-joined subsets of the metadata alphabet
+	// given to NewOutgoingContext / AppendToOutgoingContext, and the spelling
+	Part     string `json:"part,omitempty"`
+	MDNew    string `json:"md_new,omitempty"`
+	MDApp    string `json:"md_app,omitempty"`
+	Spelling string `json:"spelling,omitempty"` // lower | mixed
+}
+
+func (c kase) end() string {
+	if c.End == "" {
+		return "cancel"
+	}
+	return c.End
 }
 
 func (c kase) layerList() string {
@@ -67,17 +141,152 @@ func (c kase) layerList() string {
 }
 
 func (c kase) String() string {
-	return fmt.Sprintf("base=%s layers=%s order=%s deadline=%v kind=%s interceptors=%v", c.Base, c.layerList(), c.Order, c.Deadline, c.Kind, c.IC)
+	s := fmt.Sprintf("base=%s layers=%s order=%s deadline=%v kind=%s interceptors=%v", c.Base, c.layerList(), c.Order, c.Deadline, c.Kind, c.IC)
+	if c.End != "" {
+		s += " end=" + c.End
+	}
+	if c.Creds != "" {
+		s += " credentials=" + c.Creds
+	}
+	if c.Part == "md" {
+		s += fmt.Sprintf(" NewOutgoingContext=%s AppendToOutgoingContext=%s spelling=%s", orNone(c.MDNew), orNone(c.MDApp), c.Spelling)
+	}
+	return s
 }
 
-func (c kase) has(name string) bool {
-	for i, n := range layerNames {
-		if n == name {
-			return c.Layers&(1<<i) != 0
+func orNone(s string) string {
+	if s == "" {
+		return "none"
+	}
+	return s
+}
+
+// ---------------------------------------------------------------- metadata alphabet
+
+// Three keys. "ka" has one value per source, "kb" is multi-valued (two values
+// from NewOutgoingContext, two appended pairs, one from the credentials, whose
+// map holds one value per key), "authorization" is the key real credentials use. With mixed spelling every source spells the
+// key differently; the metadata API lower-cases all of them, so they meet.
+var mdAlphabet = []string{"ka", "kb", "authorization"}
+
+func subsetName(mask int) string {
+	var l []string
+	for i, k := range mdAlphabet {
+		if mask&(1<<i) != 0 {
+			l = append(l, k)
 		}
 	}
-	panic(name)
+	return strings.Join(l, "+")
 }
+
+func inSubset(sub, key string) bool {
+	for _, k := range strings.Split(sub, "+") {
+		if k == key {
+			return true
+		}
+	}
+	return false
+}
+
+func newPairs(sub string, mixed bool) []string {
+	sp := func(lower, mix string) string {
+		if mixed {
+			return mix
+		}
+		return lower
+	}
+	var kv []string
+	if inSubset(sub, "ka") {
+		kv = append(kv, sp("ka", "Ka"), "new-ka")
+	}
+	if inSubset(sub, "kb") {
+		kv = append(kv, sp("kb", "KB"), "new-kb-1", sp("kb", "KB"), "new-kb-2")
+	}
+	if inSubset(sub, "authorization") {
+		kv = append(kv, sp("authorization", "Authorization"), "bearer new")
+	}
+	return kv
+}
+
+func appPairs(sub string, mixed bool) []string {
+	sp := func(lower, mix string) string {
+		if mixed {
+			return mix
+		}
+		return lower
+	}
+	var kv []string
+	if inSubset(sub, "ka") {
+		kv = append(kv, sp("ka", "KA"), "app-ka")
+	}
+	if inSubset(sub, "kb") {
+		kv = append(kv, sp("kb", "kB"), "app-kb-1", sp("kb", "Kb"), "app-kb-2")
+	}
+	if inSubset(sub, "authorization") {
+		kv = append(kv, sp("authorization", "AUTHORIZATION"), "bearer app")
+	}
+	return kv
+}
+
+// credsMap is what the per-RPC credentials return (nil when there is no
+// credentials option).
+func credsMap(c kase) (m map[string]string, present bool) {
+	switch c.Creds {
+	case "":
+		return nil, false
+	case "empty":
+		return map[string]string{}, true
+	case "std":
+		return map[string]string{"shared-key": "from-creds", "Creds-Only": "c"}, true
+	}
+	mixed := c.Spelling == "mixed"
+	m = map[string]string{}
+	if inSubset(c.Creds, "ka") {
+		if mixed {
+			m["kA"] = "creds-ka"
+		} else {
+			m["ka"] = "creds-ka"
+		}
+	}
+	if inSubset(c.Creds, "kb") {
+		// (one spelling per key: two spellings of one key in the credentials' map
+		// collapse to one arbitrary value in grpc-go itself)
+		if mixed {
+			m["Kb"] = "creds-kb"
+		} else {
+			m["kb"] = "creds-kb"
+		}
+	}
+	if inSubset(c.Creds, "authorization") {
+		if mixed {
+			m["Authorization"] = "bearer creds"
+		} else {
+			m["authorization"] = "bearer creds"
+		}
+	}
+	return m, true
+}
+
+type perRPC struct {
+	m     map[string]string
+	mu    sync.Mutex
+	calls int
+}
+
+func (p *perRPC) GetRequestMetadata(ctx context.Context, uri ...string) (map[string]string, error) {
+	p.mu.Lock()
+	p.calls++
+	p.mu.Unlock()
+	out := make(map[string]string, len(p.m))
+	for k, v := range p.m {
+		out[k] = v
+	}
+	return out, nil
+}
+
+func (p *perRPC) RequireTransportSecurity() bool { return false }
+
+// ---------------------------------------------------------------- state of one case
 
 type markerKey struct{}
 type outerMarkerKey struct{}
@@ -107,7 +316,20 @@ type kv struct {
 }
 
 type finding struct {
-	Clause, Where, Detail string
+	Clause, Where, When, Detail string
+}
+
+// The instants at which the oracle is evaluated, in the order used to name the
+// earliest one at which a clause fails.
+var instants = []string{"entry", "parked", "after-cancel", "returned-after-cancel", "after-deadline", "returned-after-deadline", "returned-normally", "handler-returned"}
+
+func instantRank(w string) int {
+	for i, n := range instants {
+		if n == w {
+			return i
+		}
+	}
+	return len(instants)
 }
 
 type runState struct {
@@ -125,31 +347,37 @@ type runState struct {
 	values      []kv
 	innerKeys   []interface{} // keys set only inside a context-typed caller value
 	cleanup     []func()
+	creds       *perRPC
+	credsWant   metadata.MD // what the credentials add, keys lower-cased
 
-	wantIncoming   metadata.MD // = the caller's outgoing metadata
+	callerCtx      context.Context // the context the caller passes to Invoke / NewStream
+	wantIncoming   metadata.MD     // = the caller's outgoing metadata when the call was made
 	callerIncoming metadata.MD
 	callerDeadline time.Time
 	clientPeer     peer.Peer // what grpc.Peer(...) reported to the caller
 
-	mu       sync.Mutex
-	findings []finding
-	internal string
-	phases   int // handler phases completed: 1 static, 2 after caller-side mutation, 3 cancellation seen
-	icRan    bool
+	mu          sync.Mutex
+	findings    []finding
+	internal    string
+	phases      int // handler phases completed: 1 entry, 2 parked (after caller-side mutation), 3 end of context seen, 4 observed after the caller's call returned
+	icRan       bool
+	lateLookups int  // accessor look-ups made after the context was done / the call had returned
+	earlyLive   bool // the entry and parked instants were observed on a context that was not done
+	sharedSeen  bool // the handler saw, under one key, values of the caller and of the credentials
 
-	entered, proceed, cancelReady, handlerDone chan struct{}
+	entered, proceed, cancelReady, afterReturn, handlerDone, icDone chan struct{}
 }
 
 func newState(c kase, reference bool) *runState {
 	m := map[string]string{"unary": "/c10.S/U", "stream": "/c10.S/St"}[c.Kind]
-	return &runState{c: c, method: m, reference: reference, marker: new(int), outerMarker: new(int),
-		entered: make(chan struct{}), proceed: make(chan struct{}), cancelReady: make(chan struct{}), handlerDone: make(chan struct{})}
+	return &runState{c: c, method: m, reference: reference, marker: new(int), outerMarker: new(int), earlyLive: true,
+		entered: make(chan struct{}), proceed: make(chan struct{}), cancelReady: make(chan struct{}), afterReturn: make(chan struct{}), handlerDone: make(chan struct{}), icDone: make(chan struct{})}
 }
 
-func (st *runState) add(clause, where, detail string) {
+func (st *runState) add(clause, where, when, detail string) {
 	st.mu.Lock()
 	defer st.mu.Unlock()
-	st.findings = append(st.findings, finding{clause, where, detail})
+	st.findings = append(st.findings, finding{clause, where, when, detail})
 }
 
 func (st *runState) fail(msg string) {
@@ -157,6 +385,14 @@ func (st *runState) fail(msg string) {
 	defer st.mu.Unlock()
 	if st.internal == "" {
 		st.internal = msg
+	}
+}
+
+func (st *runState) setPhase(n int) {
+	st.mu.Lock()
+	defer st.mu.Unlock()
+	if n > st.phases {
+		st.phases = n
 	}
 }
 
@@ -186,6 +422,81 @@ func mdString(m metadata.MD) string {
 	return strings.TrimSpace(sb.String()) + "}"
 }
 
+// subsequence: do the elements of want occur in got, in that order?
+func subsequence(want, got []string) bool {
+	i := 0
+	for _, g := range got {
+		if i < len(want) && g == want[i] {
+			i++
+		}
+	}
+	return i == len(want)
+}
+
+func containsAll(got, want []string) bool {
+	for _, w := range want {
+		found := false
+		for _, g := range got {
+			if g == w {
+				found = true
+				break
+			}
+		}
+		if !found {
+			return false
+		}
+	}
+	return true
+}
+
+// carried decides whether the metadata `got` carries the caller's metadata
+// `caller` joined with what the credentials added (`creds`). All values used by
+// the check are distinct. Without credentials on a key the value list must be
+// exactly the caller's. On a key the credentials supply too, gRPC sends both
+// (the credentials' values first on the wire; the in-process channel appends
+// them): what is demanded is that the caller's values are all there in the
+// caller's order, that the credentials' values are all there, and nothing
+// else. The result is "" or the name of the sub-clause that fails.
+func carried(got, caller, creds metadata.MD) string {
+	keys := map[string]bool{}
+	for k := range caller {
+		keys[k] = true
+	}
+	for k := range creds {
+		keys[k] = true
+	}
+	var ks []string
+	for k := range keys {
+		ks = append(ks, k)
+	}
+	sort.Strings(ks)
+	worst := ""
+	for _, k := range ks {
+		g, ca, cr := got[k], caller[k], creds[k]
+		if len(cr) == 0 {
+			if !reflect.DeepEqual(g, ca) {
+				return "mismatch" // plain: a key only the caller sends
+			}
+			continue
+		}
+		switch {
+		case !subsequence(ca, g):
+			if worst == "" || worst == "extra-values" {
+				worst = "caller-values-lost-on-credentials-key"
+			}
+		case !containsAll(g, cr):
+			if worst == "" || worst == "extra-values" {
+				worst = "credentials-values-lost"
+			}
+		case len(g) != len(ca)+len(cr):
+			if worst == "" {
+				worst = "extra-values"
+			}
+		}
+	}
+	return worst
+}
+
 // ---------------------------------------------------------------- caller side
 
 func (st *runState) applyLayer(ctx context.Context, i int) context.Context {
@@ -199,9 +510,16 @@ func (st *runState) applyLayer(ctx context.Context, i int) context.Context {
 		st.values = append(st.values, kv{"struct-key", ctxKey{7}, v})
 		return context.WithValue(ctx, ctxKey{7}, v)
 	case "outgoing-md":
-		st.origOut = metadata.Pairs("out-key", "a", "out-key", "b", "shared-key", "from-outgoing", "out-doomed", "d")
+		if st.c.Part == "md" {
+			st.origOut = metadata.Pairs(newPairs(st.c.MDNew, st.c.Spelling == "mixed")...)
+		} else {
+			st.origOut = metadata.Pairs("out-key", "a", "out-key", "b", "shared-key", "from-outgoing", "out-doomed", "d")
+		}
 		return metadata.NewOutgoingContext(ctx, st.origOut)
 	case "outgoing-appended":
+		if st.c.Part == "md" {
+			return metadata.AppendToOutgoingContext(ctx, appPairs(st.c.MDApp, st.c.Spelling == "mixed")...)
+		}
 		return metadata.AppendToOutgoingContext(ctx, "out-appended", "x", "shared-key", "from-appended")
 	case "context-value":
 		inner := new(int)
@@ -233,7 +551,15 @@ func (st *runState) buildCaller(base context.Context) (context.Context, context.
 	var cancel context.CancelFunc
 	var cancelDL context.CancelFunc = func() {}
 	deadline := func() {
-		if st.c.Deadline {
+		switch {
+		case st.c.end() == "deadline":
+			d := shortDeadline
+			if st.reference {
+				d = shortDeadlineRef
+			}
+			st.callerDeadline = time.Now().Add(d)
+			ctx, cancelDL = context.WithDeadline(ctx, st.callerDeadline)
+		case st.c.Deadline:
 			st.callerDeadline = time.Now().Add(time.Hour)
 			ctx, cancelDL = context.WithDeadline(ctx, st.callerDeadline)
 		}
@@ -257,6 +583,11 @@ func (st *runState) buildCaller(base context.Context) (context.Context, context.
 	}
 	st.wantIncoming, _ = metadata.FromOutgoingContext(ctx)
 	st.callerIncoming, _ = metadata.FromIncomingContext(ctx)
+	if m, present := credsMap(st.c); present {
+		st.creds = &perRPC{m: m}
+		st.credsWant = metadata.New(m) // lower-cases the keys; all values of a key are kept
+	}
+	st.callerCtx = ctx
 	return ctx, func() {
 		cancel()
 		cancelDL()
@@ -267,11 +598,15 @@ func (st *runState) buildCaller(base context.Context) (context.Context, context.
 }
 
 func (st *runState) call(cc grpc.ClientConnInterface, ctx context.Context) error {
+	opts := []grpc.CallOption{grpc.Peer(&st.clientPeer)}
+	if st.creds != nil {
+		opts = append(opts, grpc.PerRPCCredentials(st.creds))
+	}
 	if st.c.Kind == "unary" {
 		var out wrapperspb.StringValue
-		return cc.Invoke(ctx, st.method, wrapperspb.String("req"), &out, grpc.Peer(&st.clientPeer))
+		return cc.Invoke(ctx, st.method, wrapperspb.String("req"), &out, opts...)
 	}
-	cs, err := cc.NewStream(ctx, &grpc.StreamDesc{StreamName: "St", ClientStreams: true, ServerStreams: true}, st.method, grpc.Peer(&st.clientPeer))
+	cs, err := cc.NewStream(ctx, &grpc.StreamDesc{StreamName: "St", ClientStreams: true, ServerStreams: true}, st.method, opts...)
 	if err != nil {
 		return err
 	}
@@ -292,7 +627,7 @@ func wait(ch <-chan struct{}) bool {
 }
 
 // drive makes the call under test from the given base context and steps the
-// handler through its three phases.
+// handler through its phases.
 func (st *runState) drive(cc grpc.ClientConnInterface, base context.Context) {
 	ctx, cancel := st.buildCaller(base)
 	defer cancel()
@@ -305,15 +640,23 @@ func (st *runState) drive(cc grpc.ClientConnInterface, base context.Context) {
 	select {
 	case <-st.entered:
 	case <-callDone:
-		st.fail(fmt.Sprintf("the call ended before the handler was entered: %v", callErr))
-		return
+		// only a call whose (short) deadline has already passed may be over before
+		// its handler got as far as the first gate
+		if st.c.end() != "deadline" || ctx.Err() == nil {
+			st.fail(fmt.Sprintf("the call ended before the handler was entered: %v", callErr))
+			return
+		}
+		if !wait(st.entered) {
+			st.fail(fmt.Sprintf("the call ended (%v) and the handler was never entered", callErr))
+			return
+		}
 	case <-t.C:
 		st.fail("hang: handler not entered")
 		return
 	}
 	// the handler has scribbled on the metadata it was given; the caller's must be as built
 	if now, _ := metadata.FromOutgoingContext(ctx); !mdEqual(now, st.wantIncoming) {
-		st.add("md-aliasing:handler->caller", "caller", fmt.Sprintf("caller's outgoing metadata is now %s, was %s", mdString(now), mdString(st.wantIncoming)))
+		st.add("md-aliasing:handler->caller", "caller", "parked", fmt.Sprintf("caller's outgoing metadata is now %s, was %s", mdString(now), mdString(st.wantIncoming)))
 	}
 	// now the caller scribbles on the map it had handed to NewOutgoingContext
 	for _, v := range st.origOut {
@@ -328,29 +671,55 @@ func (st *runState) drive(cc grpc.ClientConnInterface, base context.Context) {
 	}
 	close(st.proceed)
 	if !wait(st.cancelReady) {
-		st.fail("hang: handler did not reach the cancellation phase")
+		st.fail("hang: handler did not reach the end-of-context phase")
 		return
 	}
-	cancel()
+	if st.c.end() == "cancel" {
+		cancel()
+	}
+	// Gate: the caller's Invoke / RecvMsg has returned (because of the cancellation,
+	// the deadline, or because the handler returned). The handler (or the goroutine
+	// that kept its context) looks again after that.
+	if !wait(callDone) {
+		st.fail("hang: the call did not return after " + st.c.end())
+		return
+	}
+	close(st.afterReturn)
 	// the handler itself reports a cancellation that never arrives (after the guard)
 	t2 := time.NewTimer(2 * guard)
 	defer t2.Stop()
 	select {
 	case <-st.handlerDone:
 	case <-t2.C:
-		st.fail("hang: handler did not return")
+		st.fail("hang: handler did not finish its last observation")
 		return
 	}
-	if !wait(callDone) {
-		st.fail("hang: the call did not return after the handler did")
+	// the interceptor looks once more after the handler has returned
+	if st.c.IC && !wait(st.icDone) {
+		st.fail("hang: the interceptor did not finish its last observation")
 	}
 }
 
 // ---------------------------------------------------------------- handler side
 
-// static is the part of the oracle that only looks at the context.
-func (st *runState) static(ctx context.Context, where string) {
-	add := func(clause, detail string) { st.add(clause, where, detail) }
+// observe is the oracle: everything the statement says about the handler's
+// context, evaluated at one instant.
+func (st *runState) observe(ctx context.Context, where, when string) {
+	var pending []finding
+	add := func(clause, detail string) { pending = append(pending, finding{clause, where, when, detail}) }
+	defer func() {
+		// A short deadline may pass before or while an early instant is evaluated
+		// (slow machine). Being done is monotonic: if the context is still live now,
+		// everything above was seen on a live context; otherwise what was seen
+		// counts as seen after the deadline.
+		label := when
+		if (when == "entry" || when == "parked") && st.c.end() == "deadline" && ctx.Err() != nil {
+			label = "after-deadline"
+		}
+		for _, f := range pending {
+			st.add(f.Clause, f.Where, label, f.Detail)
+		}
+	}()
 	if v := ctx.Value(markerKey{}); v != nil {
 		add("value-leak:private-key", "the caller's marker value is visible through ctx.Value")
 	}
@@ -368,10 +737,24 @@ func (st *runState) static(ctx context.Context, where string) {
 		add("value-leak:outgoing-md", "handler context carries outgoing metadata "+mdString(md))
 	}
 	in, _ := metadata.FromIncomingContext(ctx)
-	for k, want := range st.wantIncoming {
-		if !reflect.DeepEqual(in[k], want) { // the text does not depend on which key differs
-			add("incoming-md-mismatch", fmt.Sprintf("incoming metadata %s does not carry the caller's outgoing %s", mdString(in), mdString(st.wantIncoming)))
-			break
+	if sub := carried(in, st.wantIncoming, st.credsWant); sub != "" { // the text does not depend on which key differs
+		clause := "incoming-md-mismatch"
+		if sub != "mismatch" {
+			clause += ":" + sub
+		}
+		msg := fmt.Sprintf("incoming metadata %s does not carry the caller's outgoing %s", mdString(in), mdString(st.wantIncoming))
+		if st.creds != nil {
+			msg += " joined with the per-RPC credentials' " + mdString(st.credsWant)
+		}
+		add(clause, msg)
+	} else if st.creds != nil {
+		for k, cr := range st.credsWant {
+			if len(cr) > 0 && len(st.wantIncoming[k]) > 0 {
+				st.mu.Lock()
+				st.sharedSeen = true
+				st.mu.Unlock()
+				break
+			}
 		}
 	}
 	var inKeys []string
@@ -379,11 +762,13 @@ func (st *runState) static(ctx context.Context, where string) {
 		inKeys = append(inKeys, k)
 	}
 	sort.Strings(inKeys)
+leak:
 	for _, k := range inKeys {
-		if _, sent := st.wantIncoming[k]; !sent {
-			if _, leaked := in[k]; leaked {
+		// a value of the caller's own incoming metadata that was not sent
+		for _, v := range st.callerIncoming[k] {
+			if containsAll(in[k], []string{v}) && !containsAll(st.wantIncoming[k], []string{v}) && !containsAll(st.credsWant[k], []string{v}) {
 				add("incoming-md-leak", fmt.Sprintf("incoming metadata %s shows key %q of the caller's own incoming metadata", mdString(in), k))
-				break
+				break leak
 			}
 		}
 	}
@@ -404,17 +789,44 @@ func (st *runState) static(ctx context.Context, where string) {
 	} else if sts.Method() != st.method || (st.fakeSTS != nil && sts == grpc.ServerTransportStream(st.fakeSTS)) {
 		add("transport-stream-leak", fmt.Sprintf("ServerTransportStream.Method() = %q, this call is %q", sts.Method(), st.method))
 	}
+	hasDL := st.c.Deadline || st.c.end() == "deadline"
 	d, ok := ctx.Deadline()
 	switch {
-	case st.c.Deadline && !ok:
+	case hasDL && !ok:
 		add("deadline-lost", "caller has a deadline, handler context has none")
-	case st.c.Deadline && !st.reference && !d.Equal(st.callerDeadline):
+	case hasDL && !st.reference && !d.Equal(st.callerDeadline):
 		add("deadline-mismatch", fmt.Sprintf("handler deadline differs from the caller's by %v", d.Sub(st.callerDeadline)))
-	case !st.c.Deadline && ok:
+	case !hasDL && ok:
 		add("deadline-invented", "caller has no deadline, handler context has one")
 	}
-	if err := ctx.Err(); err != nil {
-		add("spurious-cancel", "handler context already done: "+err.Error())
+	switch when {
+	case "entry", "parked":
+		// Not done before the caller's context is. (The caller's context is read
+		// after the handler's: being done is monotonic, so a caller context that is
+		// still live now was live when the handler's was found done. Over a real
+		// connection the server runs its own timer for a deadline, so with a short
+		// deadline the comparison is only made in-process.)
+		if err := ctx.Err(); err != nil {
+			if st.c.end() != "deadline" {
+				add("spurious-cancel", "handler context already done: "+err.Error())
+			} else if !st.reference && st.callerCtx.Err() == nil {
+				add("spurious-cancel", "handler context done ("+err.Error()+") while the caller's context is not")
+			} else {
+				st.mu.Lock()
+				st.earlyLive = false
+				st.mu.Unlock()
+			}
+		}
+	case "after-cancel":
+		if ctx.Err() != context.Canceled {
+			add("cancel-wrong-error", fmt.Sprintf("after the caller's cancel, ctx.Err() = %v", ctx.Err()))
+		}
+	case "after-deadline":
+		if err := ctx.Err(); err != context.DeadlineExceeded && err != context.Canceled {
+			add("cancel-wrong-error", fmt.Sprintf("after the caller's deadline, ctx.Err() = %v", err))
+		} else if !st.reference && st.callerCtx.Err() == nil {
+			add("spurious-cancel", "handler context done ("+err.Error()+") while the caller's context, whose deadline has not passed, is not")
+		}
 	}
 	if st.reference {
 		return
@@ -443,8 +855,19 @@ func (st *runState) static(ctx context.Context, where string) {
 			add("client-context-incomplete", "ClientContext(ctx) does not carry the caller's enclosing ServerTransportStream")
 		}
 	}
-	if out, _ := metadata.FromOutgoingContext(cc); !mdEqual(out, st.wantIncoming) {
-		add("client-context-incomplete", "ClientContext(ctx) outgoing metadata "+mdString(out)+" differs from the caller's "+mdString(st.wantIncoming))
+	// The caller's context shows whatever the caller's map holds now (the caller may
+	// have changed it since the call was made); the context the accessor returns
+	// must show that, or what the map held when the call was made. With per-RPC
+	// credentials it may show the credentials' values joined to it (the channel
+	// derives the call's context from the caller's), never less than the caller's.
+	callerNow, _ := metadata.FromOutgoingContext(st.callerCtx)
+	out, _ := metadata.FromOutgoingContext(cc)
+	if st.creds == nil {
+		if !mdEqual(out, callerNow) && !mdEqual(out, st.wantIncoming) {
+			add("client-context-incomplete", "ClientContext(ctx) outgoing metadata "+mdString(out)+" differs from the caller's "+mdString(callerNow))
+		}
+	} else if a, b := carried(out, callerNow, st.credsWant), carried(out, st.wantIncoming, st.credsWant); a != "" && b != "" && !mdEqual(out, callerNow) {
+		add("client-context-incomplete", "ClientContext(ctx) outgoing metadata "+mdString(out)+" is neither the caller's "+mdString(callerNow)+" nor that joined with the credentials' "+mdString(st.credsWant)+" ("+b+")")
 	}
 	if inc, _ := metadata.FromIncomingContext(cc); !mdEqual(inc, st.callerIncoming) {
 		add("client-context-incomplete", "ClientContext(ctx) incoming metadata "+mdString(inc)+" differs from the caller's "+mdString(st.callerIncoming))
@@ -461,6 +884,41 @@ func (st *runState) static(ctx context.Context, where string) {
 	}
 }
 
+// probe is the observation at an instant after the context is done, or after
+// the caller's call has returned: whatever the library still does in the
+// background at that point (propagation goroutines, functions registered on the
+// context) is given the processor `lookups` times, with the accessors looked up
+// each time, and then the whole oracle is evaluated. No clock is involved.
+func (st *runState) probe(ctx context.Context, where, when string) {
+	reported := false
+	for i := 0; i < lookups; i++ {
+		if !reported {
+			if v := ctx.Value(markerKey{}); v != nil {
+				st.add("value-leak:private-key", where, when, fmt.Sprintf("the caller's marker value is visible through ctx.Value (look-up #%d at this instant)", i))
+				reported = true
+			}
+			if !st.reference {
+				if cc := inprocgrpc.ClientContext(ctx); cc == nil {
+					st.add("client-context-missing", where, when, fmt.Sprintf("ClientContext(ctx) is nil (look-up #%d at this instant)", i))
+					reported = true
+				} else if cc.Value(markerKey{}) != interface{}(st.marker) {
+					st.add("client-context-wrong", where, when, fmt.Sprintf("ClientContext(ctx) is not the context the caller passed (look-up #%d at this instant)", i))
+					reported = true
+				}
+			}
+			if _, ok := metadata.FromIncomingContext(ctx); !ok && (len(st.wantIncoming) > 0 || len(st.credsWant) > 0) {
+				st.add("incoming-md-mismatch", where, when, fmt.Sprintf("no incoming metadata in the handler context (look-up #%d at this instant)", i))
+				reported = true
+			}
+		}
+		runtime.Gosched()
+	}
+	st.mu.Lock()
+	st.lateLookups += lookups
+	st.mu.Unlock()
+	st.observe(ctx, where, when)
+}
+
 // leaksPeer: does the handler's peer show anything of a peer the caller stored in its context?
 func (st *runState) leaksPeer(p *peer.Peer) string {
 	for _, f := range st.fakePeers {
@@ -474,10 +932,13 @@ func (st *runState) leaksPeer(p *peer.Peer) string {
 	return ""
 }
 
+var errHandlerDone = status.Error(codes.Aborted, "c10 handler done")
+
+// handle is the handler of the call under test. It returns nil when the case
+// wants a handler that completes normally.
 func (st *runState) handle(ctx context.Context) error {
-	defer close(st.handlerDone)
-	add := func(clause, detail string) { st.add(clause, "handler", detail) }
-	st.static(ctx, "handler")
+	add := func(clause, when, detail string) { st.add(clause, "handler", when, detail) }
+	st.observe(ctx, "handler", "entry")
 	snap, _ := metadata.FromIncomingContext(ctx)
 	mine, _ := metadata.FromIncomingContext(ctx)
 	for _, v := range mine {
@@ -489,34 +950,60 @@ func (st *runState) handle(ctx context.Context) error {
 		mine["handler-added"] = []string{"x"}
 	}
 	if again, _ := metadata.FromIncomingContext(ctx); !mdEqual(snap, again) {
-		add("md-aliasing:handler-view", "mutating the metadata returned to the handler changed the handler context's metadata")
+		add("md-aliasing:handler-view", "entry", "mutating the metadata returned to the handler changed the handler context's metadata")
 	}
-	st.phases = 1
+	st.setPhase(1)
 	close(st.entered)
 	if !wait(st.proceed) {
 		st.fail("hang: harness did not let the handler proceed")
+		close(st.handlerDone)
 		return status.Error(codes.Aborted, "checker")
 	}
 	if after, _ := metadata.FromIncomingContext(ctx); !mdEqual(snap, after) {
-		add("md-aliasing:caller->handler", fmt.Sprintf("after the caller mutated its metadata map the handler sees %s, before %s", mdString(after), mdString(snap)))
+		add("md-aliasing:caller->handler", "parked", fmt.Sprintf("after the caller mutated its metadata map the handler sees %s, before %s", mdString(after), mdString(snap)))
 	}
-	if err := ctx.Err(); err != nil {
-		add("spurious-cancel", "handler context done before the caller cancelled: "+err.Error())
+	st.observe(ctx, "handler", "parked")
+	st.setPhase(2)
+	end := st.c.end()
+	if end == "return" {
+		// the handler completes normally; work it started keeps the context and
+		// looks at it once the caller's call has returned
+		go func() {
+			defer close(st.handlerDone)
+			if !wait(st.afterReturn) {
+				st.fail("hang: harness did not report the return of the call")
+				return
+			}
+			st.setPhase(3)
+			st.probe(ctx, "handler", "returned-normally")
+			st.setPhase(4)
+		}()
+		close(st.cancelReady)
+		return nil
 	}
-	st.phases = 2
+	defer close(st.handlerDone)
 	close(st.cancelReady)
 	t := time.NewTimer(guard)
 	defer t.Stop()
 	select {
 	case <-ctx.Done():
-		if ctx.Err() != context.Canceled {
-			add("cancel-wrong-error", fmt.Sprintf("after the caller's cancel, ctx.Err() = %v", ctx.Err()))
-		}
-		st.phases = 3
+		st.setPhase(3)
+		st.probe(ctx, "handler", "after-"+end)
 	case <-t.C:
-		add("cancel-not-propagated", "the caller cancelled its context; the handler context is still not done after the hang guard")
+		if end == "cancel" {
+			add("cancel-not-propagated", "after-cancel", "the caller cancelled its context; the handler context is still not done after the hang guard")
+		} else {
+			add("cancel-not-propagated", "after-deadline", "the caller's deadline passed long ago; the handler context is still not done after the hang guard")
+		}
+		return errHandlerDone
 	}
-	return status.Error(codes.Aborted, "c10 handler done")
+	if !wait(st.afterReturn) {
+		st.fail("hang: harness did not report the return of the call")
+		return errHandlerDone
+	}
+	st.probe(ctx, "handler", "returned-after-"+end)
+	st.setPhase(4)
+	return errHandlerDone
 }
 
 type wrappedSS struct {
@@ -537,7 +1024,10 @@ func (e *env) service() *common.Svc {
 				if err := dec(&in); err != nil {
 					return nil, err
 				}
-				return nil, e.cur.handle(ctx)
+				if err := e.cur.handle(ctx); err != nil {
+					return nil, err
+				}
+				return wrapperspb.String("resp"), nil
 			},
 			"OuterU": func(ctx context.Context, dec func(interface{}) error) (interface{}, error) {
 				var in wrapperspb.StringValue
@@ -559,17 +1049,31 @@ func (e *env) service() *common.Svc {
 }
 
 func (e *env) unaryIC(ctx context.Context, req interface{}, info *grpc.UnaryServerInfo, h grpc.UnaryHandler) (interface{}, error) {
-	if info.FullMethod == e.cur.method {
-		e.cur.icRan = true
-		e.cur.static(ctx, "interceptor")
+	if info.FullMethod != e.cur.method {
+		return h(ctx, req)
 	}
-	return h(context.WithValue(ctx, icKey{}, "ic"), req)
+	st := e.cur
+	st.mu.Lock()
+	st.icRan = true
+	st.mu.Unlock()
+	st.observe(ctx, "interceptor", "entry")
+	resp, err := h(context.WithValue(ctx, icKey{}, "ic"), req)
+	st.probe(ctx, "interceptor", "handler-returned")
+	close(st.icDone)
+	return resp, err
 }
 
 func (e *env) streamIC(srv interface{}, ss grpc.ServerStream, info *grpc.StreamServerInfo, h grpc.StreamHandler) error {
-	if info.FullMethod == e.cur.method {
-		e.cur.icRan = true
-		e.cur.static(ss.Context(), "interceptor")
+	if info.FullMethod != e.cur.method {
+		return h(srv, ss)
 	}
-	return h(srv, &wrappedSS{ss, context.WithValue(ss.Context(), icKey{}, "ic")})
+	st := e.cur
+	st.mu.Lock()
+	st.icRan = true
+	st.mu.Unlock()
+	st.observe(ss.Context(), "interceptor", "entry")
+	err := h(srv, &wrappedSS{ss, context.WithValue(ss.Context(), icKey{}, "ic")})
+	st.probe(ss.Context(), "interceptor", "handler-returned")
+	close(st.icDone)
+	return err
 }
